@@ -340,6 +340,10 @@ def search_templates(failure):
             if not c.get('agree', True):
                 return {'request': {'op': 'variant_literals'}, 'result': c}
     if only in (None, 'C04'):
+        o = batch([{'op': 'flatten_shapes'}])[0]
+        for c in o.get('cases', []):
+            if not c.get('agree', True):
+                return {'request': {'op': 'flatten_shapes'}, 'result': c}
         o = batch([{'op': 'binding_keys'}])[0]
         for c in o.get('cases', []):
             if not c.get('agree', True):
@@ -355,7 +359,7 @@ def search_templates(failure):
     return None
 
 
-SEARCHERS = {'inflection': search_inflection, 'paths': search_paths, 'paths_esm': search_paths, 'export_chain': search_export_history, 'registry': search_export_history, 'lexical': search_lexical, 'recursion': search_export_history, 'merge': search_export_history, 'merge_imports': search_export_history, 'deps': search_export_history, 'gen_imports': search_export_history, 'containers': search_export_history, 'attrs': search_attrs, 'parsers': search_attrs, 'templates': search_templates, 'field_deps': search_export_history}
+SEARCHERS = {'inflection': search_inflection, 'paths': search_paths, 'paths_esm': search_paths, 'export_chain': search_export_history, 'registry': search_export_history, 'lexical': search_lexical, 'recursion': search_export_history, 'merge': search_export_history, 'merge_imports': search_export_history, 'deps': search_export_history, 'gen_imports': search_export_history, 'containers': search_export_history, 'attrs': search_attrs, 'parsers': search_attrs, 'entry': search_attrs, 'templates': search_templates, 'field_deps': search_export_history}
 
 
 def search(pid, unit, failure, seed):
